@@ -90,9 +90,11 @@ fn render(tree: &Tree, op: &Op) -> Vec<u8> {
         Op::Mutant(b) => b.0.clone(),
         Op::Method { method, target, body } => {
             let m = METHODS[*method as usize % METHODS.len()];
-            let kinds = 4 + tree.files.len() + tree.dirs.len();
+            // targets: every file, every directory, every "<name>" that is served through the <name>.html fallback, and four names that do not exist
+            let stems: Vec<String> = tree.files.iter().filter_map(|f| f.url.strip_suffix(".html").map(|s| s.to_string())).filter(|s| !s.ends_with('/')).collect();
+            let kinds = 4 + tree.files.len() + tree.dirs.len() + stems.len();
             let k = pick_idx(*target, kinds);
-            let t = if k < tree.files.len() { tree.files[k].url.clone() } else if k < tree.files.len() + tree.dirs.len() { tree.dirs[k - tree.files.len()].url.clone() }
+            let t = if k >= 4 + tree.files.len() + tree.dirs.len() { stems[k - 4 - tree.files.len() - tree.dirs.len()].clone() } else if k < tree.files.len() { tree.files[k].url.clone() } else if k < tree.files.len() + tree.dirs.len() { tree.dirs[k - tree.files.len()].url.clone() }
                 else { match k - tree.files.len() - tree.dirs.len() { 0 => format!("/new-{}.txt", target), 1 => "/../created-above.txt".to_string(), 2 => format!("{}/inside-{}.html", tree.dirs.first().map(|d| d.url.trim_end_matches('/').to_string()).unwrap_or_default(), target), _ => "/../linked-area/beside.txt".to_string() } };
             let b: Vec<u8> = match body % 4 { 0 => vec![], 1 => b"replacement content".to_vec(), 2 => vec![0u8; 300], _ => b"{\"delete\": true}".to_vec() };
             let mut v = format!("{} {} HTTP/1.1\r\nHost: localhost\r\nContent-Length: {}\r\nContent-Type: application/octet-stream\r\n\r\n", m, t, b.len()).into_bytes();
